@@ -993,6 +993,15 @@ _orig_qnew = u.Quantity.__new__
 
 
 def _qnew(cls, value, unit=None, dtype=np.inexact, *a, **k):
+    if (isinstance(value, (list, tuple)) and value and all(isinstance(v, u.Quantity) for v in value)
+            and any(has_sym(v) for v in value)):
+        # astropy stacks a list of quantities (after converting to the unit of the first one) before
+        # its dtype check; do the same with object payloads
+        base = value[0].unit if unit is None else u.Unit(unit)
+        parts = [np.asarray(v.to_value(base), dtype=object) for v in value]
+        value = np.stack(parts) if parts[0].shape != () or len(parts) > 0 else parts
+        unit = base
+        dtype = object
     if dtype is np.inexact and has_sym(value):
         dtype = object
     return _orig_qnew(cls, value, unit, dtype, *a, **k)
